@@ -27,11 +27,26 @@ package smtp
 //
 // The mail/line pump started per connection runs outside the connection's recover; it cannot panic
 // (property C01).
+// (C04) every mail and every input line taken from the channels is reported by one event
 //@ func (*Service).Handle$1
 //@   check safety
 //@   requires conn != nil && s != nil
+//@   physical 0 <= nsends && nsends < 1<<48
 //@   modifies *
 //@   loop 1: invariant conn != nil && s != nil
+//@   loop 1: invariant nsends == old(nsends) + loopiter
+//
+// Every line read from the client is written to the line log exactly once, as read (property C04):
+// smtplogged counts the sends ReadLine makes (a ghost counter kept by the verifier). The only send on
+// conn.rcv is this one (structural single-sender rule of C04).
+//@ ghost var smtplogged int
+//@ func (*conn).ReadLine
+//@   onsend-add smtplogged: 1
+//@   onsend [the-line] ch == c.rcv && val == s
+//@   physical 0 <= smtplogged && smtplogged < 1<<48
+//@   ensures [logged-once] result1 == nil ==> smtplogged == old(smtplogged) + 1 && nlines == old(nlines) + 1
+//@   ensures [not-logged] result1 != nil ==> smtplogged == old(smtplogged) && nlines == old(nlines)
+//@   modifies *
 //
 // ---- per-connection mail pump (properties C09 and C03) ----
 // The connection object is created on a server value and a line channel made for this connection (so
